@@ -274,8 +274,10 @@ def run_case(case):
     ctx = f"world {w}"
     Df_ref, M_ref, qacc_ref, warn1 = mj_qderiv(mjm, st, mujoco.mjtIntegrator.mjINT_IMPLICITFAST)
     Di_ref, _, _, warn2 = mj_qderiv(mjm, st, mujoco.mjtIntegrator.mjINT_IMPLICIT)
-    if warn1 or warn2 or not np.all(np.isfinite(Di_ref)):
-      rec.inconcl("MuJoCo raised a warning on this state")
+    evM = np.linalg.eigvalsh(M_ref)
+    if warn1 or warn2 or not np.all(np.isfinite(Di_ref)) or evM[0] <= 1e-9 * evM[-1]:
+      rec.inconcl("MuJoCo raised a warning on this state or the inertia matrix is singular")
+      rec.count("worlds_without_reference")
       continue
     # entries that a muscle actuator's moment arm touches
     mus = np.zeros((nv, nv), dtype=bool)
@@ -344,7 +346,10 @@ def run_case(case):
       integ = mujoco.mjtIntegrator.mjINT_IMPLICITFAST if name == "implicitfast" else mujoco.mjtIntegrator.mjINT_IMPLICIT
       m2 = copy.copy(mjm)
       m2.opt.integrator = integ
-      sref, snoise, _ = reference_el(m2, st, mujoco.mj_step, lambda mm, dd: {"qvel": dd.qvel}, seed=case["seed"] + w)
+      sref, snoise, _ = reference_el(m2, st, mujoco.mj_step, lambda mm, dd: {"qvel": dd.qvel, "warn": [sum(int(x.number) for x in dd.warning)]}, seed=case["seed"] + w)
+      if sref["warn"][0] > 0 or snoise["warn"][0] > 0:
+        rec.inconcl("mj_step raised a warning (auto-reset): no reference")
+        continue
       vref = sref["qvel"]
       sig = "step:" + name + ":qvel"
       if b_hit:
